@@ -85,6 +85,8 @@ impl<VM: VMBinding> GCTrigger<VM> {
         }
 
         if !self.request_flag.swap(true, Ordering::Relaxed) {
+            #[cfg(mmtk_verif)]
+            crate::verif::emit(|| "\"ev\":\"RequestFlag\",\"op\":\"swap\"".to_string());
             // `GCWorkScheduler::request_schedule_collection` needs to hold a mutex to communicate
             // with GC workers, which is expensive for functions like `poll`.  We use the atomic
             // flag `request_flag` to elide the need to acquire the mutex in subsequent calls.
@@ -97,6 +99,8 @@ impl<VM: VMBinding> GCTrigger<VM> {
     /// Called by a GC worker when all mutators have come to a stop.
     pub fn clear_request(&self) {
         self.request_flag.store(false, Ordering::Relaxed);
+        #[cfg(mmtk_verif)]
+        crate::verif::emit(|| "\"ev\":\"RequestFlag\",\"op\":\"clear\"".to_string());
     }
 
     /// This method is called periodically by the allocation subsystem
